@@ -519,6 +519,65 @@ func c19NodeLevel(r *mc.Run, paths [][]string) {
 	}
 }
 
+// ---- volume: more records of a kind than one page of the SDK's paginated store walk (100) ----
+
+func c19VolumeEnum() mc.Enum {
+	cfg := c19Config()
+	cfg.Accounts = append(append([]string{}, cfg.Accounts...), c15VolumeAccounts(130)...)
+	e := mc.Enum{Prop: "C19", Name: "C19/export-import-volume", Cfg: cfg}
+	kinds := []string{"pubkeys", "providers", "names", "bids", "feeds", "notifications", "plans", "filetree-roots", "files"}
+	for _, kind := range append(kinds, "all") {
+		kind := kind
+		e.Cases = append(e.Cases, mc.Case{Desc: "130 x " + kind, Run: func(env world.Env) mc.CaseResult {
+			w := env.W()
+			u := w.A("U").Bech
+			cr := mc.CaseResult{Class: "round-trip", Nontrivial: true}
+			on := func(k string) bool { return kind == k || kind == "all" }
+			if on("bids") {
+				mustOK(env.Deliver(rnstypes.NewMsgRegisterName(u, "alpha.jkl", 1, "{}", true)), "register")
+			}
+			if on("files") {
+				mustOK(env.Deliver(storagetypes.NewMsgBuyStorage(u, u, 30, 1_000_000_000, "ujkl")), "plan")
+			}
+			for i, v := range c15VolumeAccounts(130) {
+				a := w.A(v).Bech
+				if on("pubkeys") {
+					mustOK(env.Deliver(fttypes.NewMsgPostKey(a, "pubkey-of-"+v)), "PostKey")
+				}
+				if on("providers") {
+					mustOK(env.Deliver(storagetypes.NewMsgInitProvider(a, fmt.Sprintf("https://node%d.volume.com", i), 1000, "kb")), "InitProvider")
+				}
+				if on("names") {
+					mustOK(env.Deliver(rnstypes.NewMsgRegisterName(a, fmt.Sprintf("name%03d.jkl", i), 1, "{}", false)), "RegisterName")
+				}
+				if on("bids") {
+					mustOK(env.Deliver(rnstypes.NewMsgBid(a, "alpha.jkl", sdk.NewInt64Coin("ujkl", int64(5+i)))), "Bid")
+				}
+				if on("feeds") {
+					mustOK(env.Deliver(oracletypes.NewMsgCreateFeed(a, fmt.Sprintf("feed%03d", i))), "CreateFeed")
+				}
+				if on("notifications") {
+					mustOK(env.Deliver(notiftypes.NewMsgCreateNotification(a, u, fmt.Sprintf(`{"m":%d}`, i), nil)), "Notify")
+				}
+				if on("plans") {
+					mustOK(env.Deliver(storagetypes.NewMsgBuyStorage(a, a, 30, int64(1_000_000_000+i), "ujkl")), "BuyStorage")
+				}
+				if on("filetree-roots") {
+					mustOK(env.Deliver(fttypes.NewMsgProvisionFileTree(a, jmap(map[string]string{ftEditorID(c10Track, a): "k"}), jmap(map[string]string{ftViewerID(c10Track, a): "k"}), c10Track)), "Provision")
+				}
+				if on("files") {
+					f := mkFile(seqBytes(12, byte(i)), 4)
+					mustOK(env.Deliver(storagetypes.NewMsgPostFile(u, f.merkle, 12, 0, 0, 1, fmt.Sprintf(`{"n":%d}`, i))), "PostFile")
+				}
+			}
+			vs, _ := c19ModuleRoundTrip(w, env.Ctx())
+			cr.Viols = vs
+			return cr
+		}})
+	}
+	return e
+}
+
 func jsonSection(app []byte, module string) string {
 	var m map[string]interface{}
 	if err := json.Unmarshal(app, &m); err != nil {
@@ -530,12 +589,15 @@ func jsonSection(app []byte, module string) string {
 func init() {
 	regScenario(C19{})
 	regScenario(C19{Deep: true})
+	CaseReplayers["C19/export-import-volume"] = func(r *mc.Run, c string) { r.ReplayCase(c19VolumeEnum(), c) }
 	Props["C19"] = Prop{Level: "model_checking", Run: func(r *mc.Run, tier string) {
 		r.Rules = append(r.Rules, "BFS over one event per record kind of the six custom modules (provider, collateral, plan+gauge, file, proofs, attestation form, report form; name+primary name, sub-record, bid, listing, init; file-tree root, pubkey, entry; feed; notification, block; minted blocks via NextBlock) in every order allowed by their prerequisites; in every reached state each module is exported, JSON round-tripped, validated and imported into a branch of a fresh node and every (key, value) of its store is compared by record kind, and the export is repeated; selected histories are additionally committed at the ABCI seam, exported with ExportAppStateAndValidators and imported by InitChain on a fresh node")
 		r.Assumptions = append(r.Assumptions, "a superset after import is allowed (e.g. materialised ActiveProviders)", "violations are keyed by (module store, record-kind prefix)")
 		res := r.AddExplore(C19{}, opts(tier, 5, 9, 50, 1200, 20, 200))
 		r.Rules = append(r.Rules, "second-instance variant: from a state holding one record of every kind, BFS over the events that add a second instance (same file in a later block, second notification, name, bid, feed, plan+gauge, attestation form, report form) and NextBlock, same round-trip oracle; a record that exists only after the import is a violation unless it is a materialised ActiveProviders entry")
 		r.AddExplore(C19{Deep: true}, opts(tier, 4, 9, 40, 600, 20, 100))
+		r.Rules = append(r.Rules, "volume: 130 records of each kind (public keys, providers+collateral, names, bids, feeds, notifications, plans+gauges, file-tree roots, files), one kind at a time and all together, then the same round trip (one page of a paginated store walk holds 100)")
+		r.AddEnum(c19VolumeEnum(), workers(), time.Time{})
 		paths := [][]string{}
 		all := []string{}
 		for _, k := range c19Kinds {
